@@ -93,6 +93,12 @@ def run(tier: str) -> int:
                           ("pre/tests_old/kept4.js", "function kept4(a) {\n  return a;\n}\n"), ("pre/test/kept5.py", "def kept5(a):\n    return a\n")):
             (gen / rel).parent.mkdir(parents=True, exist_ok=True)
             (gen / rel).write_text(text)
+        # a header between C++ sources: what a .h file is does not depend on which files were analysed before it
+        for rel, text in (("hdr/a_first.cpp", "int first(int a) {\n  return a;\n}\n"), ("hdr/zz_last.cpp", "int last(int a) {\n  return a;\n}\n"),
+                          ("hdr/util.h", "static int total(const int *xs, int n) {\n  int s = 0;\n  FOR_EACH(i, n) {\n    s += xs[i];\n    s += 1;\n  }\n  return s;\n}\n"),
+                          ("hdr/inc/deep.h", "static int deep(int a) {\n  WITH_LOCK(m) {\n    a += 1;\n  }\n  return a;\n}\n"), ("hdr/inc/impl.cc", "int impl(int a) {\n  return a;\n}\n")):
+            (gen / rel).parent.mkdir(parents=True, exist_ok=True)
+            (gen / rel).write_text(text)
         # two names that differ only in their Unicode normalisation form (composed / decomposed e-acute) are two files
         (gen / "uni").mkdir(parents=True, exist_ok=True)
         (gen / "uni" / "caf\u00e9.py").write_text("def composed(a):\n    return a\n")
